@@ -326,36 +326,33 @@ func (m *MemMapFs) Rename(oldname, newname string) error {
 	oldname = normalizePath(oldname)
 	newname = normalizePath(newname)
 
-	m.mu.RLock()
-	defer m.mu.RUnlock()
-	if _, ok := m.getData()[oldname]; ok {
-		if oldname == newname {
-			return nil
-		}
-		m.mu.RUnlock()
-		m.mu.Lock()
-		err := m.unRegisterWithParent(oldname)
-		if err != nil {
-			return err
-		}
+	m.mu.Lock()
+	defer m.mu.Unlock()
 
-		fileData := m.getData()[oldname]
-		mem.ChangeFileName(fileData, newname)
-		m.getData()[newname] = fileData
-
-		err = m.renameDescendants(oldname, newname)
-		if err != nil {
-			return err
-		}
-
-		delete(m.getData(), oldname)
-
-		m.registerWithParent(fileData, 0)
-		m.mu.Unlock()
-		m.mu.RLock()
-	} else {
+	if _, ok := m.getData()[oldname]; !ok {
 		return &os.PathError{Op: "rename", Path: oldname, Err: ErrFileNotFound}
 	}
+	if oldname == newname {
+		return nil
+	}
+
+	err := m.unRegisterWithParent(oldname)
+	if err != nil {
+		return err
+	}
+
+	fileData := m.getData()[oldname]
+	mem.ChangeFileName(fileData, newname)
+	m.getData()[newname] = fileData
+
+	err = m.renameDescendants(oldname, newname)
+	if err != nil {
+		return err
+	}
+
+	delete(m.getData(), oldname)
+
+	m.registerWithParent(fileData, 0)
 	return nil
 }
 
